@@ -7,7 +7,7 @@
 (***************************************************************************)
 EXTENDS Integers, Sequences, FiniteSets, TLC, Json, IOUtils
 
-VARIABLES l, rdom, ridom
+VARIABLES l, rreach, rdom, ridom    \* rreach[d] = nodes reachable from the entry without passing through d
 D == INSTANCE Dominators WITH MaxN <- 0, n <- 0, E <- {}, stage <- 0, rdom <- <<>>, ridom <- <<>>
 
 Rec == ndJsonDeserialize(IOEnv.TRACE)
@@ -22,10 +22,12 @@ ReachF(succ, seen, d) ==
 \* Ref's dominator sets and immediate dominators of the current record are state variables: TLC then
 \* computes them once per record (LET-bound functions are re-evaluated at every use).
 EdgesOf(r) == {<<r.e[i][1], r.e[i][2]>> : i \in 1..Len(r.e)}
-RDom(r) == LET N == 0..(r.n - 1)
-               EE == EdgesOf(r)
-               succ == [a \in N |-> D!Succ(EE, a)] IN
-           [x \in N |-> {d \in N : d = x \/ d = 0 \/ x \notin ReachF(succ, {0}, d)}]
+RReach(r) == LET N == 0..(r.n - 1)
+                 EE == EdgesOf(r)
+                 succ == [a \in N |-> D!Succ(EE, a)] IN
+             [d \in N |-> ReachF(succ, {0}, d)]
+\* d dominates x iff d = x, or d is the entry, or x is unreachable once d is removed (one search per d, not per pair)
+RDomFrom(r, rr) == LET N == 0..(r.n - 1) IN [x \in N |-> {d \in N : d = x \/ d = 0 \/ x \notin rr[d]}]
 RIdom(r, dm) == [x \in 0..(r.n - 1) |-> LET S == dm[x] \ {x} IN
                    IF S = {} THEN -1 ELSE CHOOSE d \in S : \A o \in S : o \in dm[d]]
 
@@ -39,14 +41,16 @@ RecOK(r) ==
      /\ SeqSet(r.df[x + 1]) = {j \in N : /\ \E q \in D!Pred(EE, j) : x \in rdom[q]
                                           /\ ~(x \in rdom[j] /\ x # j)}
 
-Load(k) == IF k <= Len(Rec) THEN /\ rdom' = RDom(Rec[k])
+Load(k) == IF k <= Len(Rec) THEN /\ rreach' = RReach(Rec[k])
+                                 /\ rdom' = RDomFrom(Rec[k], rreach')
                                  /\ ridom' = RIdom(Rec[k], rdom')
-           ELSE rdom' = <<>> /\ ridom' = <<>>
+           ELSE rreach' = <<>> /\ rdom' = <<>> /\ ridom' = <<>>
 Init == /\ l = 1
-        /\ rdom = IF Len(Rec) >= 1 THEN RDom(Rec[1]) ELSE <<>>
+        /\ rreach = IF Len(Rec) >= 1 THEN RReach(Rec[1]) ELSE <<>>
+        /\ rdom = IF Len(Rec) >= 1 THEN RDomFrom(Rec[1], rreach) ELSE <<>>
         /\ ridom = IF Len(Rec) >= 1 THEN RIdom(Rec[1], rdom) ELSE <<>>
 Next == l <= Len(Rec) /\ l' = l + 1 /\ Load(l + 1)
-Spec == Init /\ [][Next]_<<l, rdom, ridom>>
+Spec == Init /\ [][Next]_<<l, rreach, rdom, ridom>>
 Valid == (l <= Len(Rec)) => (RecOK(Rec[l]) \/ PrintT(<<"REJECT", ToJson([idx |-> l])>>))
 Accepted == TLCGet("stats").diameter = Len(Rec) + 1
 =============================================================================
